@@ -14,10 +14,11 @@ import (
 type C12Case struct {
 	What string `json:"what"` // int | slice | string | map
 	IK   string `json:"ik,omitempty"`
-	ST   int64  `json:"st,omitempty"` // signed threshold
-	UT   uint64 `json:"ut,omitempty"` // unsigned threshold
-	Up   bool   `json:"up"`           // fails when v >= threshold (else: v <= threshold)
-	K    int    `json:"k,omitempty"`  // collections: fails when len >= k
+	ST   int64  `json:"st,omitempty"`  // signed threshold
+	UT   uint64 `json:"ut,omitempty"`  // unsigned threshold
+	Up   bool   `json:"up"`            // fails when v >= threshold (else: v <= threshold)
+	K    int    `json:"k,omitempty"`   // collections: fails when len >= k
+	How  string `json:"how,omitempty"` // how the breach is signalled: "" Fatalf | errorf | error-const | fail | panic
 	Seed uint64 `json:"seed"`
 }
 
@@ -33,6 +34,7 @@ var c12Kinds = []string{"Int", "Int8", "Int16", "Int32", "Int64", "Uint", "Uint8
 
 func (c12) Gen(dt *drv.T, c *Ctx) any {
 	cs := &C12Case{Seed: drv.Uint64Range(1, 1<<62).Draw(dt, "seed")}
+	cs.How = pick(dt, "how", "", "", "errorf", "errorf", "error-const", "fail", "panic")
 	if chance(dt, "collection", 4) {
 		cs.What = pick(dt, "coll", "slice", "string", "map")
 		cs.IK = pick(dt, "elem", "Int", "Uint8", "Int64", "Uint16")
@@ -59,6 +61,22 @@ func c12Prop(cs *C12Case) (prop func(*rapid.T), last func() any) {
 	var v any
 	last = func() any { return v }
 	g := buildInt(&GenSpec{K: "int", IK: cs.IK})
+	// the way the property reports the breach is the user's business: fatal or not, with the offending value in the
+	// message or without, or a panic
+	fail := func(t *rapid.T, format string, x any) {
+		switch cs.How {
+		case "errorf":
+			t.Errorf(format, x)
+		case "error-const":
+			t.Error("breach")
+		case "fail":
+			t.Fail()
+		case "panic":
+			panic(fmt.Sprintf(format, x))
+		default:
+			t.Fatalf(format, x)
+		}
+	}
 	switch cs.What {
 	case "int":
 		signed := intSigned(cs.IK)
@@ -75,7 +93,7 @@ func c12Prop(cs *C12Case) (prop func(*rapid.T), last func() any) {
 				bad = (cs.Up && u >= cs.UT) || (!cs.Up && u <= cs.UT)
 			}
 			if bad {
-				t.Fatalf("beyond the threshold: %v", x)
+				fail(t, "beyond the threshold: %v", x)
 			}
 		}
 	case "slice":
@@ -85,7 +103,7 @@ func c12Prop(cs *C12Case) (prop func(*rapid.T), last func() any) {
 			x := sg.Draw(t, "v")
 			v = x
 			if len(x) >= cs.K {
-				t.Fatalf("too long: %d", len(x))
+				fail(t, "too long: %d", len(x))
 			}
 		}
 	case "string":
@@ -95,7 +113,7 @@ func c12Prop(cs *C12Case) (prop func(*rapid.T), last func() any) {
 			x := sg.Draw(t, "v")
 			v = x
 			if utf8.RuneCountInString(x) >= cs.K {
-				t.Fatalf("too long: %d", utf8.RuneCountInString(x))
+				fail(t, "too long: %d", utf8.RuneCountInString(x))
 			}
 		}
 	case "map":
@@ -105,7 +123,7 @@ func c12Prop(cs *C12Case) (prop func(*rapid.T), last func() any) {
 			x := mg.Draw(t, "v")
 			v = x
 			if len(x) >= cs.K {
-				t.Fatalf("too large: %d", len(x))
+				fail(t, "too large: %d", len(x))
 			}
 		}
 	}
@@ -126,7 +144,7 @@ func (c12) Run(c *Ctx, csAny any) Outcome {
 		out.Viol = violf("C12:panic-escaped-check", "a panic escaped rapid.Check: %v", obs.Escaped)
 		return out
 	}
-	if rep.Kind != "failed" {
+	if rep.Kind != "failed" && !(rep.Kind == "panic" && cs.How == "panic") {
 		if rep.Kind == "" && !obs.Failed {
 			out.Classes = append(out.Classes, "no-failure-found(inconclusive)")
 			return out
